@@ -361,7 +361,9 @@ func enumerate(visit func(idx int64, family string, nontrivial bool, mk func() I
 	for _, t := range objTypes {
 		for ci := range objCoords {
 			t, ci := t, ci
-			emit("geojson-obj", true, func() Input { return Input{Dec: "geojson-obj", Obj: &geojson.Geometry{Type: t, Coordinates: objCoords[ci]}} })
+			emit("geojson-obj", true, func() Input {
+				return Input{Dec: "geojson-obj", Obj: &geojson.Geometry{Type: t, Coordinates: objCoords[ci]}}
+			})
 		}
 	}
 	emit("geojson-obj", true, func() Input { return Input{Dec: "geojson-obj", Nil: true} })
